@@ -304,6 +304,11 @@ func (iterator *CollectIterator) group(ctx context.Context, scope *core.Scope) (
 					return true
 				})
 
+				// reducers are library functions: like any call, none starts after cancellation
+				if ctx.Err() != nil {
+					return nil, core.ErrTerminated
+				}
+
 				reduced, err := selector.reducer(ctx, matrix...)
 
 				if err != nil {
@@ -410,6 +415,11 @@ func (iterator *CollectIterator) aggregate(ctx context.Context, scope *core.Scop
 
 	for _, selector := range selectors {
 		matrix := aggregated[selector.variable]
+
+		// reducers are library functions: like any call, none starts after cancellation
+		if ctx.Err() != nil {
+			return nil, core.ErrTerminated
+		}
 
 		reduced, err := selector.reducer(ctx, matrix...)
 
